@@ -22,7 +22,7 @@ FLOAT_INPUTS = ("x", "x2")
 @st.composite
 def cases(draw, tier):
     return dict(prog=draw(dsl.unit_programs()), seed=draw(st.integers(0, 10**6)), train=draw(st.booleans()),
-                prior_replace=draw(st.integers(0, 7)) == 0)
+                prior_replace=draw(st.integers(0, 7)) == 0, nnroot=draw(st.integers(0, 5)) == 0)
 
 
 def prep(inputs):
@@ -139,16 +139,23 @@ def run(c) -> CaseResult:
         except Exception:  # noqa: BLE001  (its own correctness is the replace part's business)
             pass
     m = dsl.build_module(prog, c["seed"])
+    nnroot = bool(c.get("nnroot"))
+    if nnroot:  # the program behind a root whose class is defined in torch.nn
+        m = dsl.nn_root(m)
+        res.labels.append("root=nn.Sequential(program)")
     m.train(c["train"])
     inputs = dsl.make_inputs(prog, c["seed"])
+
+    def call(mod, d):
+        return dsl.call(mod, prog, d, nnroot)
     sd0 = {k: v.detach().clone() for k, v in m.state_dict().items()}
-    y0 = m(**inputs)
+    y0 = call(m, inputs)
     # ---- (1) unit_scale and the first forward/backward call do not raise
     try:
         um = unit_scale(m)
         P = dict(um.named_parameters())
         fl = prep(inputs)
-        y = um(**fl)
+        y = call(um, fl)
         diff = [fl[k] for k in FLOAT_INPUTS if k in fl] + list(P.values())
         g = grads(y, diff)
     except Exception as e:  # noqa: BLE001
@@ -169,7 +176,7 @@ def run(c) -> CaseResult:
     # ---- (2') inference: the same function without gradient tracking
     try:
         with torch.no_grad():
-            y_ng = um(**{k: v.clone() for k, v in inputs.items()})
+            y_ng = call(um, {k: v.clone() for k, v in inputs.items()})
             yr_ng = dsl.evaluate(prog, dsl.named_tensors(um), {k: v.clone() for k, v in inputs.items()}, dsl.Unit())
         if not close(y_ng, yr_ng):
             res.fail("C16.value.no_grad", f"[{ftag}] under torch.no_grad() unit_scale(module) returned {y_ng.item():.7g}, the hand conversion gives {yr_ng.item():.7g}\n{m._verif_source}")
@@ -180,7 +187,7 @@ def run(c) -> CaseResult:
         if not torch.equal(v, sd0[k]):
             res.fail("C16.original-modified", f"parameter {k} of the original module changed")
             break
-    y0b = m(**inputs)
+    y0b = call(m, inputs)
     if not torch.equal(y0, y0b):
         res.fail("C16.original-modified", "the original module computes a different value after unit_scale")
     for name, mod in um.named_modules():
@@ -199,7 +206,7 @@ def run(c) -> CaseResult:
             captured.append(copy.deepcopy(gm))
             return gm
         probe = apply_transform(m, rec)
-        probe(**inputs)
+        call(probe, inputs)
         if len(captured) == 1:
             backend = um.backends[-1]
             gm2 = backend(captured[0], [])
